@@ -3,6 +3,7 @@ CONSTANTS
  Variants <- MCVariants
  NBk = 4
  Inits <- MCInits
+ InoutInits <- MCInoutInits
  RouteInits <- MCRouteInits
  Runs = 1
  QueuePersists = FALSE
@@ -16,6 +17,7 @@ CONSTANTS
  DevSeqOpenEarly = FALSE
  DevLinkDirect = FALSE
  DevBackupCount = FALSE
+ DevInplaceInput = FALSE
  DevRouteDiscard = FALSE
 PROPERTY CommitOnly
 CHECK_DEADLOCK FALSE
